@@ -20,6 +20,7 @@ RULE = ('exhaustive: chains of 1..5 conditions (if / elif.. / optional else; '
 RULE += (
          'Also: the chosen body re-references the condition from '
          'Python expressions. ')
+RULE += ('Round 8: dtml-unless bodies (both spellings) re-referencing the condition name at several depths. ')
 ASSUMPTIONS = ['reference interpreter vf/model.py is trusted',
                'dtml-call of an undefined name is not generated (the '
                'statement does not say what it does)']
